@@ -137,6 +137,20 @@ def run_unit(modname, tier, unit_name, seed):
             outcome = out[1]
             tb = None
         values = eng.model_dict()
+        if out[0] == 'exc':
+            # an exception escaping the harness is never a pass: either the real code crashed (a finding) or the
+            # harness is wrong (must be seen).  It is reported once the clean concrete replay raises the same type.
+            exc = out[1]
+            site = '?'
+            t = exc.__traceback__
+            while t is not None:
+                fn = t.tb_frame.f_code.co_filename
+                if '/sx/' not in fn:
+                    site = '%s:%s' % (fn.split('/src/exabgp/')[-1].split('/verif/')[-1], t.tb_frame.f_code.co_name)
+                t = t.tb_next
+            from .ctx import Failed
+            ctx.failed.append(Failed('no-unhandled-exception', '%s:unhandled:%s:%s' % (getattr(mod, 'ID', '?'), type(exc).__name__, site),
+                                     {'exception': '%s: %s' % (type(exc).__name__, exc), 'trace': tb[-1500:] if tb else None}, values))
         outcome = plain(outcome)
         notes = plain(ctx.notes)
         res['obligations'] += ctx.passed + len(ctx.failed)
@@ -171,6 +185,8 @@ def run_unit(modname, tier, unit_name, seed):
             if rc is not None:
                 r = rc.run(unit_name, f.model)
                 v['reproduced'] = any(x['name'] == f.name for x in r['failed'])
+                if f.name == 'no-unhandled-exception':
+                    v['reproduced'] = isinstance(r['outcome'], dict) and r['outcome'].get('exc') == outcome.get('exc') if isinstance(outcome, dict) else False
                 v['concrete'] = {'outcome': r['outcome'], 'failed': r['failed'], 'exc': r.get('exc')}
                 if v['reproduced']:
                     # prefer the concrete run's signature / info: that is what a reader can re-run
